@@ -145,9 +145,9 @@ for _kind, _what in (("paren", "nested parentheses"), ("unary", "chained unary m
               "example": f"python3 -c \"from vf.props.c15 import nest; print(nest('{_kind}', 10000))\""})
 fixed("C15", "ctas-failed-statement-leaves-table", "6428efcc2", "CREATE TABLE AS registered the table when the first batch arrived: a statement failing later (cast error on a later row) left the table in the catalog", ["C14"])
 B = "glaredb_core/src/functions/scalar/builtin/"
-panic("C15", "gcd-min-value-negate-panic", "attempt to negate with overflow", B + "numeric/gcd.rs", "gcd() takes abs() of the most negative integer: panic/wrap instead of an error (same family as the arithmetic overflow panics of C12)", "SELECT gcd('-9223372036854775808'::BIGINT, 2)", ["C05", "C12"])
+panic("C15", "gcd-min-value-negate-panic", "attempt to negate with overflow", B + "numeric/gcd.rs:execute", "gcd() takes abs() of the most negative integer: panic/wrap instead of an error (same family as the arithmetic overflow panics of C12)", "SELECT gcd('-9223372036854775808'::BIGINT, 2)", ["C05", "C12"])
 panic("C15", "lcm-overflow-panic", "attempt to multiply with overflow", B + "numeric/lcm.rs", "lcm() multiplies without a range check: panic/wrap instead of an error", "SELECT lcm(2147483647, 2147483646)", ["C05", "C12"])
-panic("C15", "lcm-min-value-negate-panic", "attempt to negate with overflow", B + "numeric/lcm.rs", "lcm() takes abs() of the most negative integer: panic/wrap instead of an error", "SELECT lcm('-9223372036854775808'::BIGINT, 2)", ["C05", "C12"])
+panic("C15", "lcm-min-value-negate-panic", "attempt to negate with overflow", B + "numeric/lcm.rs:execute", "lcm() takes abs() of the most negative integer: panic/wrap instead of an error", "SELECT lcm('-9223372036854775808'::BIGINT, 2)", ["C05", "C12"])
 panic("C15", "epoch-multiply-overflow-panic", "attempt to multiply with overflow", B + "datetime/epoch.rs", "epoch()/epoch_ms() scale their argument to microseconds without a range check: panic/wrap instead of an error", "SELECT epoch(9223372036854775807)", ["C05", "C12"])
 fixed("C15", "left-right-split-part-min-count-negate", "d27a997ad", "left/right/split_part negated their count argument: i64::MIN panicked ('attempt to negate with overflow')", ["C20", "C05"])
 fixed("C20", "like-rewrite-ignores-escape", "9c60fdcb0", "the optimizer rewrote constant LIKE patterns containing a backslash escape to =, starts_with, ends_with, contains using the raw pattern text: x LIKE 'a\\b' matched only the 3-character string with a backslash (optimizer on) instead of 'ab'", ["C02", "C05"])
@@ -156,6 +156,45 @@ fixed("C20", "regexp-invalid-column-pattern-unwritten-slot", "5a0d6e6d0", "regex
 fixed("C20", "regexp-instr-byte-offset", "1a1524c3e", "regexp_instr returned a byte offset instead of a character position", ["C05"])
 fixed("C20", "split-part-negative-index", "857192a50", "split_part with a negative index split from the end (different fields for self-overlapping delimiters) and ignored index -1 for an empty delimiter", ["C05"])
 fixed("C20", "pad-min-count-overflow", "68f13235c", "lpad/rpad overflowed on the most negative count (subtract/negate with overflow panics; a 2^63-step skip in rpad/3)", ["C15"])
+for _conv, _ex in (("real->decimal", "SELECT ('32766.5'::real)::decimal(18,4)  -- 32766.4992"), ("double->decimal", "SELECT ('99999999999999'::double)::decimal(18,4)  -- 99999999999999.0016"),
+                   ("half->decimal", "SELECT ('99'::half)::decimal(4,2)  -- 99.04"), ("decimal->real", "SELECT (-32767.0000)::decimal(18,4)::real  -- -32767.002"),
+                   ("decimal->double", "SELECT (-1000000000000000.0000000000)::decimal(38,10)::double  -- ...000.125"), ("decimal->half", "SELECT (-99.00)::decimal(4,2)::half  -- -99.0625")):
+    F.append({"status": "open", "property": "C13", "id": "float-decimal-scaling-in-float-format-" + _conv.replace("->", "-to-"), "signature": {"kind": "inexact-float-decimal", "conv": _conv},
+              "what": "float <-> DECIMAL casts multiply/divide by 10^scale in the float format itself (to_decimal.rs FloatToDecimal: v.mul(mul_scale).round(); to_primitive.rs DecimalToFloat: v / scale), so values the target represents exactly come out changed, results are not even a neighbouring representable value, and there is no single rounding rule. A correct repair needs exact (integer or wider) arithmetic per float width: not a small patch",
+              "example": _ex, "also": ["C05"]})
+for _sig, _id, _what, _ex in (
+    ({"kind": "outcome", "class": "panic", "message": "attempt to multiply with overflow", "frame": "glaredb_core/src/arrays/scalar/interval.rs", "conv": "text->interval"}, "interval-parse-overflow-add", "TEXT -> INTERVAL: Interval::add_* multiply and add without range checks", "SELECT CAST('178956971 years' AS interval)"),
+    ({"kind": "outcome", "class": "panic", "message": "attempt to multiply with overflow", "frame": "glaredb_core/src/functions/cast/parse.rs", "conv": "text->interval"}, "interval-parse-overflow-weeks", "TEXT -> INTERVAL: `weeks as i32 * 7` overflows in the parser", "SELECT CAST('1e10 weeks' AS interval)"),
+    ({"kind": "text-accepted", "conv": "text->interval", "class": "component-overflow"}, "interval-parse-saturates", "TEXT -> INTERVAL: a component beyond the i32 range is silently saturated (`as i32`) instead of rejected", "SELECT CAST('2147483648 days' AS interval)  -- 2147483647 days")):
+    F.append({"status": "open", "property": "C13", "id": _id, "signature": _sig, "what": _what + " (the interval parser needs checked arithmetic throughout; recorded together with the interval formatter/parser mismatch)", "example": _ex, "also": ["C15"]})
+for _cls, _feat, _ex in (("reparse-error", "months", "1 mon"), ("reparse-error", "time", "00:00:01"), ("reparse-error", "milliseconds", "00:00:00.1 for 1 ms"), ("reparse-error", "sub-millisecond", "00:00:00.123 for 123456789 ns"),
+                         ("value-changed", "sub-millisecond", "'' for 1 ns"), ("reparse-error", "negative-component", "61:00:00 for (-448 months, 61 h)"), ("value-changed", "negative-component", "'' for -11 months")):
+    F.append({"status": "open", "property": "C13", "id": f"interval-text-roundtrip-{_cls}-{_feat}", "signature": {"kind": "roundtrip", "type": "interval", "class": _cls, "feature": _feat},
+              "what": "INTERVAL -> TEXT -> INTERVAL does not round-trip: the formatter (cast/format.rs IntervalFormatter) drops negative components and sub-millisecond digits, does not zero-pad milliseconds, and emits 'mon' and HH:MM:SS forms the parser (cast/parse.rs) does not understand. Formatter and parser have to be redesigned together",
+              "example": "formatted as " + _ex})
+fixed("C13", "nested-cast-flattened-over-lossy-inner-cast", "71019cbed", "CAST(CAST(x AS M) AS T) was flattened to CAST(x AS T) when only the direct cast was safe: 100000::smallint::bigint returned 100000, '0.1'::double::real::double skipped the rounding to REAL", ["C05", "C02"])
+fixed("C13", "decimal-validate-precision-min-value", "3e46b07b2", "validate_precision took abs() of i64::MIN / i128::MIN: panic for ('-9223372036854775808'::bigint)::decimal(9,0) and float sources at the minimum", ["C15", "C12"])
+fixed("C13", "binary-to-text-invalid-utf8-unwritten-slot", "560b2c74a", "CAST(binary AS TEXT) on invalid UTF-8 recorded an error that was never returned and left the output slot unwritten: uninitialised string view in the result (garbage rows or a crash)", ["C16", "C10"])
+fixed("C13", "decimal-to-decimal-rescale-and-precision", "5c0b27872", "DECIMAL -> DECIMAL: rescale factor computed in the target primitive (bind panic for DECIMAL(38,38) -> DECIMAL(4,2)), narrowing before downscaling (spurious 'Failed cast decimal'), and no precision check on the result (99.99::decimal(3,1) stored 100.0 under DECIMAL(3,1))", ["C12", "C15"])
+fixed("C13", "text-to-decimal-unchecked-parse", "59a94a9b0", "TEXT -> DECIMAL: unchecked multiply/add (panic/wrap on long digit strings), precision compared before the fill-up to the scale ('123'::decimal(3,2) stored 123.00), '' '.' '+' '-' accepted as 0, extra fractional digits truncated instead of rounded half away from zero", ["C15", "C17"])
+for _sig in ("bigint,ubigint", "ubigint,bigint"):
+    F.append({"status": "open", "property": "C05", "id": "bigint-ubigint-compared-as-double-" + _sig.replace(",", "-"), "signature": {"kind": "wrong-value", "fn": "compare", "sig": _sig, "as": "double"},
+              "what": "BIGINT vs UBIGINT comparisons (all six operators, IS [NOT] DISTINCT FROM, BETWEEN, IN, simple CASE) are evaluated after casting both sides to DOUBLE: values differing beyond 2^53 compare equal. The Int64/UInt64 -> Int128 casts are explicit-only, so Float64 is the only common implicit target; making them implicit changes overload resolution for every function over these types (not a small, safe patch)",
+              "example": "SELECT '9223372036854775807'::bigint = '9223372036854775808'::ubigint  -- true", "also": ["C11", "C06"]})
+for _fn, _sig, _ex in (("asinh", "double,double", "SELECT asinh('-1.7976931348623157e308'::double)  -- -inf, true value -710.4758"), ("acosh", "double,double", "SELECT acosh('1.0000000000000002'::double)  -- relative error 4e-9"), ("acosh", "real,real", "SELECT acosh('1.0000001'::real)")):
+    F.append({"status": "open", "property": "C05", "id": f"{_fn}-accuracy-{_sig.split(',')[0]}", "signature": {"kind": "wrong-value", "fn": _fn, "sig": _sig},
+              "what": "asinh/acosh call Rust's std implementations, which overflow for huge arguments (asinh) and lose half the digits near 1 (acosh); outside the 2-ulp tolerance the check grants transcendental functions. Numerical-library quality, low severity",
+              "example": _ex})
+F.append({"status": "open", "property": "C05", "id": "timestamp-no-cast-set-case-without-else", "signature": {"kind": "unexpected-error", "fn": "case", "what": "timestamp-branch-without-else"},
+          "what": "there is no cast function set targeting TIMESTAMP at all, so NULL -> TIMESTAMP is impossible: CASE without ELSE / with ELSE NULL over a TIMESTAMP branch fails to bind ('Unable to find cast function to handle target type: Timestamp'); also TIMESTAMP '...' literals and UNION with NULL. Needs a new cast set + implicit-cast score",
+          "example": "SELECT CASE WHEN true THEN epoch(1) END", "also": ["C18", "C13"]})
+F.append({"status": "open", "property": "C05", "id": "timestamp-no-cast-set-coalesce", "signature": {"kind": "unexpected-error", "fn": "coalesce", "what": "timestamp-arguments"},
+          "what": "same cause as timestamp-no-cast-set-case-without-else: COALESCE over TIMESTAMP arguments fails to bind", "example": "SELECT coalesce(epoch(1), epoch(2))", "also": ["C18", "C13"]})
+fixed("C05", "float-zero-sign-hash", "dd8c0e6ea", "-0.0 and +0.0 hashed differently: equal as an expression, but never matched as hash-join keys and formed two groups", ["C06", "C07", "C03"])
+fixed("C05", "date-part-seconds-without-whole-seconds", "6937ab428", "date_part/extract second, milliseconds, microseconds returned only the sub-second part", [])
+fixed("C05", "date-trunc-toward-zero", "156553785", "date_trunc rounded toward zero, i.e. up for timestamps before 1970", [])
+fixed("C05", "case-untyped-null-first-branch", "c6e110634", "CASE WHEN .. THEN NULL ELSE 1 END failed to bind (ELSE cast to the Null type)", ["C18"])
+fixed("C05", "decimal-meta-null-and-ubigint", "a0d366b6b", "DECIMAL compared with an untyped NULL failed to bind; UBIGINT -> DECIMAL used precision 19 (20 digits needed)", ["C18", "C13"])
 fixed("C17", "csv-last-record-without-newline-dropped", "901a81dae", "read_csv dropped the last record of a file not ending in a line break", ["C11"])
 fixed("C17", "csv-inference-ignores-unterminated-last-record", "8f587fc55", "dialect/type inference ignored the final record without line break even when the whole file was in the sample", [])
 fixed("C17", "csv-partial-record-leading-empty-fields-lost", "5395bbc8c", "leading empty fields of a record split across reads were lost (clear_completed discarded field ends of a partial record with no bytes yet), so results depended on read chunking/batch size", ["C03", "C16"])
